@@ -6,6 +6,10 @@ Gen.calculate_cartesian (re-translated from misc.py on every run); Properties/C1
 equi-join, post = number of blocked pairs, marginal counts = rows per match_key, cartesian = admissible pairs,
 n_largest sorted and maximal.
 Tie: the three public functions vs the compiled model on C01's tables and rules; a brute-force oracle on the real output.
+SQL level (c14_sql.py): the counting statements the code emits now are regenerated as Rel terms (Generated/BCountSql.lean, T-sql) with the
+equi-join keys as parameters; Properties/C14Sql.lean proves that under Rel.eval they compute the equi-join size / the blocks / |L|x|R| /
+truly largest blocks / the per-dataset row counts for every table contents; the regenerated terms are evaluated on the cases of this run
+and compared with the engine's results (translation_validation).
 """
 from __future__ import annotations
 
@@ -1362,3 +1366,15 @@ def run(ctx: core.Ctx):
         elif not ctx.lean.ok:
             ctx.violation("Lean obligations for C14 no longer check",
                           {"theorems": ctx.lean.as_dict()["undischarged"], "problems": ctx.lean.problems, "build_log_tail": ctx.lean.build_log[-1500:], "searched_cases": ctx.evaluations}, kind="unproved")
+    elif not ctx.violations and any(w.startswith("T-sql translation validation:") for _, w in broken):
+        # every concrete failure was one a registered known finding describes: a disagreement between the regenerated SQL under Rel.eval
+        # and the engine must still be reported, not hidden behind the known findings
+        c, w = [(c, w) for c, w in broken if w.startswith("T-sql translation validation:")][0]
+        ctx.violation("translation validation of Generated/BCountSql.lean (counting SQL of blocking_analysis.py) no longer checks",
+                      {"correspondence": "harness/props/c14_sql.py validate(): " + w, "case": c, "disagreeing_cases": sum(1 for _, w2 in broken if w2.startswith("T-sql translation validation:")),
+                       "searched_cases": ctx.evaluations, "lean": ctx.lean.as_dict()}, kind="unproved")
+    elif not ctx.lean.ok and not ctx.violations:
+        # every concrete failure was one a registered known finding describes: a broken obligation (e.g. the regenerated SQL no longer
+        # is the statement the proofs are about, or the capture refused) must still be reported, not hidden behind the known findings
+        ctx.violation("Lean obligations for C14 no longer check",
+                      {"theorems": ctx.lean.as_dict()["undischarged"], "problems": ctx.lean.problems, "build_log_tail": ctx.lean.build_log[-1500:], "searched_cases": ctx.evaluations}, kind="unproved")
